@@ -163,17 +163,24 @@ def window_rules(ctx, m, first_last):
     else:
         ctx.ok({'latest cycle start offset': maxoff, 'window lead': 23})
 
+PY_DELAYS = {}
+
 def delay_tables(ctx, repo, m):
     ctx.rule('C19.1-delays', 'DELAYS_48K/128K (Python module loops, C init_* loops; constant-folded) == documented 6,5,4,3,2,1,0,0 pattern for every frame position', floor=4)
     res = {}
     mod = repo.mod('cmiosimulator')
-    py = ModuleFold(repo, 'cmiosimulator').run(mod.tree.body, ['DELAYS_48K', 'DELAYS_128K'])
+    from sa.core.classfold import ClassFolder
+    try:
+        py = ModuleFold(repo, 'cmiosimulator', opaque=ClassFolder(repo, 'cmiosimulator').hook()).run(mod.tree.body, ['DELAYS_48K', 'DELAYS_128K'])
+    except NotLiteral as e:
+        raise FactError('skoolkit/cmiosimulator.py: DELAYS_48K / DELAYS_128K are not built by foldable module-level code (%s)' % e)
     u = m.c.units['cont']
     cf = cinterp.CFold(u, m.c.consts['cont'])
     for name, key in (('DELAYS_48K', '48k'), ('DELAYS_128K', '128k')):
         first, line, frame = FIRST[key]
         want = [documented_delay(t, first, line, frame) for t in range(frame)]
         got = py.get(name)
+        PY_DELAYS[name] = got
         if not isinstance(got, list):
             raise FactError('skoolkit/cmiosimulator.py: %s is not built by foldable module-level code' % name)
         where = 'skoolkit/cmiosimulator.py (%s)' % name
@@ -215,31 +222,38 @@ def window_constants(ctx, repo, m, first_last):
     ctx.rule('C19.2-constants', 'window constants: t0 == first contended T - 23, t1 == last contended T + 1, paired with the right contend function and frame length (Python and C)', floor=4)
     mod = repo.mod('cmiosimulator')
     init = mod.method('CMIOSimulator', '__init__')
+    # CMIOSimulator.__init__ folded for a 48K and a 128K memory (up to its call of Simulator.__init__): the instance carries t0, t1 and
+    # the contend / io_contention methods chosen
+    from sa.core.classfold import ClassFolder, Inst, BoundMethod
+    from sa.core.pyfacts import FOLDED_NONE
     found = 0
-    for n in ast.walk(init):
-        if isinstance(n, ast.If):
-            for branch, is128 in ((n.body, None), (n.orelse, None)):
-                vals = {}
-                for st in branch:
-                    if isinstance(st, ast.Assign) and isinstance(st.targets[0], ast.Attribute):
-                        a = st.targets[0].attr
-                        if a in ('t0', 't1'):
-                            try:
-                                vals[a] = Lit(repo, 'cmiosimulator').ev(st.value)
-                            except NotLiteral:
-                                pass
-                        elif a == 'contend':
-                            vals['contend'] = ast.unparse(st.value).split('.')[-1]
-                if {'t0', 't1', 'contend'} <= set(vals):
-                    found += 1
-                    key = '128k' if '128' in vals['contend'] else '48k'
-                    f, l = first_last[key]
-                    where = 'skoolkit/cmiosimulator.py:%d' % init.lineno
-                    if vals['t0'] != f - 23 or vals['t1'] != l + 1:
-                        ctx.violation('py window ' + key, where, 'window for %s is (%d, %d) but the first/last contended T-states are %d/%d (expected t0=%d, t1=%d)' %
-                                      (vals['contend'], vals['t0'], vals['t1'], f, l, f - 23, l + 1))
-                    else:
-                        ctx.ok({'impl': 'py', 'machine': key, 't0': vals['t0'], 't1': vals['t1'], 'contend': vals['contend']})
+    for size, key in ((65536, '48k'), (0x20000, '128k')):
+        def hook(n, lit):
+            if isinstance(n, ast.Call) and isinstance(n.func, ast.Attribute) and n.func.attr == '__init__' and isinstance(n.func.value, ast.Call) \
+               and isinstance(n.func.value.func, ast.Name) and n.func.value.func.id == 'super':
+                return FOLDED_NONE
+            return None
+        hook.wants_lit = True
+        cfw = ClassFolder(repo, 'cmiosimulator', hook)
+        inst = Inst('cmiosimulator', 'CMIOSimulator', cfw)
+        try:
+            cfw.call(inst, '__init__', [0] * size, None, None, None)
+        except NotLiteral as e:
+            ctx.limit('py window ' + key, 'CMIOSimulator.__init__ not foldable: %s' % e)
+            continue
+        vals = {a: getattr(inst, a, None) for a in ('t0', 't1', 'contend')}
+        cname = getattr(vals['contend'], 'fn', None)
+        cname = cname.name if cname is not None else str(vals['contend'])
+        if vals['t0'] is None or vals['t1'] is None:
+            continue
+        found += 1
+        f, l = first_last[key]
+        where = 'skoolkit/cmiosimulator.py:%d' % init.lineno
+        if vals['t0'] != f - 23 or vals['t1'] != l + 1 or key not in cname:
+            ctx.violation('py window ' + key, where, 'a %s machine gets the window (%s, %s) and the function %s; the first/last contended T-states are %d/%d (expected t0=%d, t1=%d, contend_%s)' %
+                          (key, vals['t0'], vals['t1'], cname, f, l, f - 23, l + 1, key))
+        else:
+            ctx.ok({'impl': 'py', 'machine': key, 't0': vals['t0'], 't1': vals['t1'], 'contend': cname})
     if found < 2:
         raise FactError('skoolkit/cmiosimulator.py: window set-up in CMIOSimulator.__init__ not recognised')
     # which branch is the 128K one: test on len(memory) == 0x20000 - checked by folding the test constant
@@ -292,46 +306,71 @@ def predicate_rules(ctx, repo, m):
     for is128, cname, ioname in ((False, 'contend_48k', 'io_contention_48k'), (True, 'contend_128k', 'io_contention_128k')):
         fn = mod.method('CMIOSimulator', cname)
         where = 'skoolkit/cmiosimulator.py:%d' % fn.lineno
-        # structure: delay = 0; for address, tstates in timings: if <pred>: cd = DELAYS[t]; delay += cd; t += cd; t += tstates; return delay
-        loop = [st for st in fn.body if isinstance(st, ast.For)]
-        ok = len(loop) == 1 and isinstance(loop[0].body[0], ast.If)
-        if not ok:
-            ctx.violation('py ' + cname, where, 'contend function no longer has the shape `for address, tstates in timings: if <contended>: ...`')
-            continue
-        test = loop[0].body[0].test
-        cvar = None
-        for st in fn.body:
-            if isinstance(st, ast.Assign) and isinstance(st.targets[0], ast.Name) and 'o7ffd' in ast.unparse(st.value):
-                cvar = st.targets[0].id
-                cexpr = st.value
-        bad = None
-        for odd in (0, 1):
-            for addr in range(65536):
-                env = {'address': addr}
-                if cvar:
-                    def opq(n, odd=odd):
-                        if isinstance(n, ast.Attribute) and n.attr == 'o7ffd':
-                            return odd
-                        return None
-                    env[cvar] = Lit(repo, 'cmiosimulator', {}, opq).ev(cexpr)
-                v = bool(Lit(repo, 'cmiosimulator', env).ev(test))
-                if v != documented(addr, odd, is128):
-                    bad = (addr, odd)
-                    break
-            if bad:
-                break
-        if bad:
-            ctx.violation('py ' + cname, where, 'address 0x%04X (odd bank paged: %d) is treated as %scontended, contrary to the documented set' % (bad[0], bad[1], '' if not documented(bad[0], bad[1], is128) else 'un'))
-        else:
-            ctx.ok({'function': cname, 'addresses': 65536 * 2})
-        # loop body: accumulates only table entries
-        body_src = [ast.unparse(s) for s in loop[0].body[0].body]
+        # the contend function folded on model cycle lists: one cycle at each address class (which addresses wait), and mixed lists at
+        # several frame positions (waits accumulate and advance the clock) - against the documented delays
+        from sa.core.classfold import ClassFolder, Inst
         tname = 'DELAYS_128K' if is128 else 'DELAYS_48K'
-        shape_ok = any(s.replace(' ', '') == 'cd=%s[t]' % tname for s in body_src) and 'delay += cd' in body_src and 't += cd' in body_src \
-            and any(isinstance(s, ast.AugAssign) and ast.unparse(s) == 't += tstates' for s in loop[0].body) and len(loop[0].body) == 2
-        if not shape_ok:
-            ctx.violation('py %s body' % cname, where, 'delay accumulation is not `cd = %s[t]; delay += cd; t += cd` followed by `t += tstates`' % tname)
+        table = PY_DELAYS.get(tname)
+        if not isinstance(table, list):
+            raise FactError('skoolkit/cmiosimulator.py: %s not folded' % tname)
+        first = next(t for t, v in enumerate(table) if v)
+        state = {'odd': 0}
+        def hook(n, lit, table=table, tname=tname):
+            if isinstance(n, ast.Name) and n.id == tname:
+                return table
+            if isinstance(n, ast.Attribute) and n.attr == 'o7ffd':
+                return state['odd']
+            return None
+        hook.wants_lit = True
+        hook.override_names = (tname,)
+        cfm = ClassFolder(repo, 'cmiosimulator', hook)
+        inst = Inst('cmiosimulator', 'CMIOSimulator', cfm)
+        class _Mem:
+            _sa_fold_ok = True
+            _sa_model = True
+        inst.memory = _Mem()
+        def ref(t, timings, odd):
+            delay = 0
+            for address, ts in timings:
+                if documented(address, odd, is128):
+                    cd = table[t]
+                    delay += cd
+                    t += cd
+                t += ts
+            return delay
+        bad = None
+        probes = sorted({0, 0x3FFF, 0x4000, 0x4001, 0x5AFF, 0x7FFF, 0x8000, 0xBFFF, 0xC000, 0xC001, 0xFFFF} | set(range(0, 65536, 509)))
+        mixed = [((0x4000, 1), (0x4000, 3)), ((0x8000, 4), (0x4000, 3), (0x4000, 3)), ((0xC000, 4), (0xC000, 3), (0x5800, 1), (0, 5)), ((0x4000, 1),) * 4, ((0, 4),)]
+        try:
+            for odd in (0, 1):
+                state['odd'] = odd
+                inst.memory.o7ffd = odd
+                for addr in probes:
+                    got = cfm.call(inst, cname, first, ((addr, 3),))
+                    if got != ref(first, ((addr, 3),), odd):
+                        bad = 'one cycle at address 0x%04X (odd bank paged: %d) at T=%d waits %s, the documented delay is %d' % (addr, odd, first, got, ref(first, ((addr, 3),), odd))
+                        break
+                if bad:
+                    break
+                for t in (first - 1, first, first + 3, first + 5, first + 7, first + 128, first + 300, 0):
+                    for timings in mixed:
+                        got = cfm.call(inst, cname, t, timings)
+                        if got != ref(t, timings, odd):
+                            bad = 'cycle list %s at T=%d (odd bank paged: %d) waits %s in all, the documented delays give %d' % (timings, t, odd, got, ref(t, timings, odd))
+                            break
+                    if bad:
+                        break
+                if bad:
+                    break
+        except NotLiteral as e:
+            ctx.limit('py ' + cname, 'not foldable: %s' % e)
+            bad = 'limit'
+        if bad == 'limit':
+            pass
+        elif bad:
+            ctx.violation('py ' + cname, where, bad)
         else:
+            ctx.ok({'function': cname, 'addresses probed': len(probes) * 2, 'cycle lists': len(mixed) * 16})
             ctx.ok({'function': cname, 'accumulates': tname})
         # io_contention
         fio = mod.method('CMIOSimulator', ioname)
@@ -365,10 +404,14 @@ def predicate_rules(ctx, repo, m):
     for is128, cname in ((False, 'contend_48k'), (True, 'contend_128k')):
         if cname not in u.funcs:
             raise FactError('c/csimulator.c: %s not found' % cname)
-        res = _c_contend_shape(u, m.c.consts['cont'], cname)
+        try:
+            res = _c_contend_shape(u, m.c.consts['cont'], cname)
+        except Unsupported as e:
+            res = 'contend function uses a construct the shape reader does not follow (%s)' % e
         where = 'c/csimulator.c:%d' % u.funcs[cname]['line']
         if isinstance(res, str):
-            ctx.violation('C ' + cname, where, res)
+            # an unrecognised shape is undecided, not wrong: the C function is still held against the Python one by the per-slot rule C19.5
+            ctx.limit('C ' + cname, res)
             continue
         conds, iocmap, tname = res
         want_t = 'DELAYS_128K' if is128 else 'DELAYS_48K'
@@ -402,20 +445,10 @@ def predicate_rules(ctx, repo, m):
             ctx.ok({'function': 'C ' + cname, 'io patterns': {str(k): v for k, v in iocmap.items()}})
 
 def _fold_return(repo, fn, env, opq):
-    """Fold a function made of nested `if` + `return <literal>` statements."""
-    def run(stmts):
-        for st in stmts:
-            if isinstance(st, ast.Return):
-                return Lit(repo, 'cmiosimulator', env, opq).ev(st.value)
-            if isinstance(st, ast.If):
-                if Lit(repo, 'cmiosimulator', env, opq).ev(st.test):
-                    r = run(st.body)
-                else:
-                    r = run(st.orelse)
-                if r is not None:
-                    return r
-        return None
-    return run(fn.body)
+    """Fold a small function (ifs, assignments, returns) on concrete arguments with the checker's evaluator."""
+    from sa.core.pyfacts import FuncFold
+    ff = FuncFold(repo, 'cmiosimulator', {}, opq)
+    return ff.call(fn, dict(env))
 
 def _c_contend_shape(u, consts, cname):
     """-> ([contended-predicate terms], {(lowbit, contended): IOC name}, delay table name) or error string."""
